@@ -23,17 +23,28 @@ func (w *World) allNodeConst() (int64, bool) {
 		fn := ntp.Fn
 		var k int64
 		found := false
-		eachInstr(fn, false, func(_ *ssa.Function, in ssa.Instruction) {
-			bo, ok := in.(*ssa.BinOp)
-			if !ok || bo.Op != token.EQL && bo.Op != token.NEQ {
-				return
+		// the predicate and the plain helpers it is spread over
+		fns := []*ssa.Function{fn}
+		for _, h := range w.pkgCallees(fn) {
+			if h.Parent() == nil && h.Signature.Recv() == nil {
+				fns = append(fns, h)
 			}
-			if c, ok := constInt(bo.Y); ok {
-				if n, ok := bo.Y.Type().(*types.Named); ok && n.Obj().Name() == "NodeType" {
-					k, found = c, true
+		}
+		for _, f := range fns {
+			eachInstr(f, false, func(_ *ssa.Function, in ssa.Instruction) {
+				bo, ok := in.(*ssa.BinOp)
+				if !ok || bo.Op != token.EQL && bo.Op != token.NEQ {
+					return
 				}
-			}
-		})
+				for _, side := range []ssa.Value{bo.Y, bo.X} {
+					if c, ok := constInt(side); ok {
+						if n, ok := side.Type().(*types.Named); ok && n.Obj().Name() == "NodeType" {
+							k, found = c, true
+						}
+					}
+				}
+			})
+		}
 		if found {
 			return k, true
 		}
@@ -112,11 +123,8 @@ func ruleGAbbrev(w *World, r *Report) {
 			}
 		})
 	}
-	for text, min := range map[string]int{"//": 3} {
-		if count[text] < min {
-			r.bad("G-ABBREV", "sites:"+text, "", fmt.Sprintf("found %d expansion sites for %q, expected at least %d", count[text], text, min))
-		}
-	}
+	// `//` in each of its grammatical positions (however many places of the code serve them)
+	w.dslashExpansion(r, g, all)
 	w.checkStepAI(r, g, all)
 	w.checkSequence(r, g)
 	w.checkAbsolute(r, g)
